@@ -2812,6 +2812,94 @@ Theorem C01_finish_segment_file : forall pre dbg segs cur (ews : bool) hh,
 Proof. exact finish_exact_f. Qed.
 Print Assumptions C01_finish_segment_file.
 
+(* ---- one leading separator, the drive letter of the base carried over: the first segment p0 of the base path is a
+   normalized Windows drive letter, the text R1 behind the separator does not start with a drive letter, the host of
+   the base is the EMPTY host (a non-empty host with such a path is F-C01-1 on the base itself).  The Standard hands
+   [p0] to the path state (one_init) and keeps the host; parser.rs starts from "file:///" + p0 and drops it.  The path
+   loop runs from [p0] with has_host = false (fpath_ok false R1 [p0] []; ".." on the sole p0 is allowed: fin_ok2). ---- *)
+Theorem C01_eq_file_rel_one_carry : forall dbg hp hpo hd shp shs, shs SEmpty = [] -> forall input b sb,
+  usv_list input -> related dbg shs b sb -> in_class_file_rel_one_carry sb input = true ->
+  agree_good dbg shs (parse_url dbg hp hpo hd None (Some b) input) (spec_basic_url_parse shp input (Some sb))
+  /\ (forall su u, spec_basic_url_parse shp input (Some sb) = BDone su -> parse_url dbg hp hpo hd None (Some b) input = POk u ->
+        full_base dbg shs u su).
+Proof. exact class_file_rel_one_carry. Qed.
+Check C01_eq_file_rel_one_carry : forall dbg hp hpo hd shp shs, shs SEmpty = [] -> forall input b sb,
+  usv_list input -> related dbg shs b sb ->
+  negb (has_opaque_path sb) && list_eqb (su_scheme sb) str_file
+  && match su_host sb with Some SEmpty => true | _ => false end
+  && match path_segments sb with p0 :: _ => is_normalized_windows_drive_letter p0 | [] => false end
+  && match spec_clean input with
+     | c1 :: R1 =>
+         is_sl c1 && match R1 with c2 :: _ => negb (is_sl c2) | [] => true end
+         && negb (starts_with_windows_drive_letter R1)
+         && fpath_ok false R1 (first_seg (path_segments sb)) []
+         && strip_stable (fst (spath_f R1 (first_seg (path_segments sb)) []))
+     | [] => false
+     end = true ->
+  agree_good dbg shs (parse_url dbg hp hpo hd None (Some b) input) (spec_basic_url_parse shp input (Some sb))
+  /\ (forall su u, spec_basic_url_parse shp input (Some sb) = BDone su -> parse_url dbg hp hpo hd None (Some b) input = POk u ->
+        full_base dbg shs u su).
+Print Assumptions C01_eq_file_rel_one_carry.
+
+Theorem C01_eq_file_same_one_carry : forall dbg hp hpo hd shp shs, shs SEmpty = [] -> forall input b sb,
+  usv_list input -> related dbg shs b sb -> in_class_file_same_one_carry sb input = true ->
+  agree_good dbg shs (parse_url dbg hp hpo hd None (Some b) input) (spec_basic_url_parse shp input (Some sb))
+  /\ (forall su u, spec_basic_url_parse shp input (Some sb) = BDone su -> parse_url dbg hp hpo hd None (Some b) input = POk u ->
+        full_base dbg shs u su).
+Proof. exact class_file_same_one_carry. Qed.
+Print Assumptions C01_eq_file_same_one_carry.
+
+(* non-vacuity: against the parse result of file:///C:/dir/f the references /y, \..\z?q, file:/a/./b#f are in the classes;
+   both sides give file:///C:/y, file:///C:/z?q, file:///C:/a/b#f *)
+Example C01_eq_file_one_carry_nonvacuous :
+  let idna := id_idna in
+  let P base i := parse_url true (host_parse idna) host_parse_opaque host_display None base i in
+  let S sbase i := spec_basic_url_parse (spec_host_parser idna) i sbase in
+  let bt := [102;105;108;101;58;47;47;47;67;58;47;100;105;114;47;102] in
+  match P None bt, S None bt with
+  | POk b, BDone sb =>
+      let ok (cls : spec_url -> list N -> bool) i h :=
+        cls sb i = true /\ known_c01 (Some b) i = 1
+        /\ match P (Some b) i, S (Some sb) i with
+           | POk u, BDone su => q_href u = h /\ api_of_model true u = Some (spec_api_list spec_host_serializer su)
+           | _, _ => False end in
+      ok in_class_file_rel_one_carry [47;121] [102;105;108;101;58;47;47;47;67;58;47;121]
+      /\ ok in_class_file_rel_one_carry [92;46;46;92;122;63;113] [102;105;108;101;58;47;47;47;67;58;47;122;63;113]
+      /\ ok in_class_file_same_one_carry [102;105;108;101;58;47;97;47;46;47;98;35;102] [102;105;108;101;58;47;47;47;67;58;47;97;47;98;35;102]
+  | _, _ => False
+  end.
+Proof. exact class_file_one_carry_nonvacuous. Qed.
+
+(* ---- ALL file-base arms proved beside C01_statement_all3, one recogniser on the Standard's side, host model plugged
+   in, no oracle hypothesis: path-relative, one leading separator (host kept / drive letter behind the separator / drive
+   letter of the base carried over), drive-letter dispatch without a separator - each scheme-less and behind "file:".
+   Together with C01_statement_all3 (two separators, '#', '?', empty) what is NOT proved against a file base: the
+   exclusions of fpath_ok / strip_stable, a base path ending in a normalized drive letter (path-relative), a drive
+   letter in the reference or at the front of the base path against a base with a NON-EMPTY host (F-C01-1: the sides
+   differ) ---- *)
+Theorem C01_statement_file_base_arms_model : forall dbg idna input b sb,
+  usv_list input -> full_base dbg spec_host_serializer b sb -> in_file_base_arms sb input = true ->
+  agree_good dbg spec_host_serializer
+    (parse_url dbg (host_parse idna) host_parse_opaque host_display None (Some b) input)
+    (spec_basic_url_parse (spec_host_parser idna) input (Some sb))
+  /\ (forall su u, spec_basic_url_parse (spec_host_parser idna) input (Some sb) = BDone su ->
+        parse_url dbg (host_parse idna) host_parse_opaque host_display None (Some b) input = POk u ->
+        full_base dbg spec_host_serializer u su).
+Proof. exact file_base_arms_model. Qed.
+Check C01_statement_file_base_arms_model : forall dbg idna input b sb,
+  usv_list input -> full_base dbg spec_host_serializer b sb ->
+  in_class_file_rel_path sb input || in_class_file_same_path sb input
+  || in_class_file_rel_one sb input || in_class_file_same_one sb input
+  || in_class_file_rel_drive sb input || in_class_file_same_drive sb input
+  || in_class_file_rel_one_carry sb input || in_class_file_same_one_carry sb input = true ->
+  agree_good dbg spec_host_serializer
+    (parse_url dbg (host_parse idna) host_parse_opaque host_display None (Some b) input)
+    (spec_basic_url_parse (spec_host_parser idna) input (Some sb))
+  /\ (forall su u, spec_basic_url_parse (spec_host_parser idna) input (Some sb) = BDone su ->
+        parse_url dbg (host_parse idna) host_parse_opaque host_display None (Some b) input = POk u ->
+        full_base dbg spec_host_serializer u su).
+Print Assumptions C01_statement_file_base_arms_model.
+
 (* Known_C01 follows (Model/KnownC01.v kf_fin_ok relaxed with kf_sole; twin harness/src/known01.rs; the cover lemma
    k_file_ok -> file_class_ok, hence C01_statement_all3, holds for the narrowed predicate): without a base,
    file:C:/../x and file:/c|/../../y are outside Known_C01, in the file class, both sides give file:///C:/x and
